@@ -36,6 +36,15 @@ func c07Asset(code int, supply int64, prof map[int]int) *types.Asset {
 	return &types.Asset{Category: 1, IsDivisible: true, AssetCode: hashN(code), Decimal: 0, TotalSupply: big.NewInt(supply), IsReplenishable: true, Issuer: c07Addrs[0], Profile: p}
 }
 
+// profSlot prints a profile entry strictly: "-" when the key is absent, otherwise its value ("" prints as 0)
+func profSlot(p types.Profile, key string) string {
+	v, ok := p[key]
+	if !ok {
+		return "-"
+	}
+	return fmt.Sprint(strVal(v))
+}
+
 func valStr(v int) string {
 	if v == 0 {
 		return ""
@@ -197,7 +206,7 @@ func (w *c07World) observe() (string, map[string]string) {
 			if err != nil || v == nil {
 				ac = append(ac, "-")
 			} else {
-				ac = append(ac, fmt.Sprintf("%s;%d;%d", v.TotalSupply.String(), strVal(v.Profile["k1"]), strVal(v.Profile["k2"])))
+				ac = append(ac, fmt.Sprintf("%s;%s;%s", v.TotalSupply.String(), profSlot(v.Profile, "k1"), profSlot(v.Profile, "k2")))
 			}
 		}
 		f[p+"assetcode"] = strings.Join(ac, ",")
@@ -270,7 +279,7 @@ func c07(c *Ctx) {
 		}
 		for k := 1; k <= 2; k++ {
 			if as, err := a.GetAssetCode(hashN(k)); err == nil && as != nil {
-				ini("assetcode %d %s %d %d", k, as.TotalSupply.String(), strVal(as.Profile["k1"]), strVal(as.Profile["k2"]))
+				ini("assetcode %d %s %s %s", k, as.TotalSupply.String(), profSlot(as.Profile, "k1"), profSlot(as.Profile, "k2"))
 			}
 			if v, err := a.GetAssetIdState(hashN(k)); err == nil {
 				ini("assetid %d %d", k, strVal(v))
